@@ -134,6 +134,13 @@ func init() {
 				reflect.StructField{Name: "K", Type: tInt})
 		}},
 		{"recmap", func(r *rand.Rand, b *builder) reflect.Type { return reflect.TypeOf(zoo.RecMap{}) }},
+		{"byte-kind-marshaler-slices", func(r *rand.Rand, b *builder) reflect.Type {
+			e := pick(r, reflect.TypeOf(zoo.TPB(0)), reflect.TypeOf(zoo.MPB(0)), reflect.TypeOf(zoo.TVB(0)))
+			sl := reflect.SliceOf(e)
+			return pick(r, structOf(reflect.StructField{Name: "BS", Type: sl, Tag: `json:"bs"`}, reflect.StructField{Name: "K", Type: tInt}),
+				structOf(reflect.StructField{Name: "PBS", Type: reflect.PtrTo(sl), Tag: `json:"pbs"`}, reflect.StructField{Name: "K", Type: tInt}),
+				reflect.SliceOf(sl), reflect.ArrayOf(2, sl), reflect.MapOf(tStr, sl), sl)
+		}},
 		{"name-collisions", func(r *rand.Rand, b *builder) reflect.Type {
 			fs := []reflect.StructField{{Name: "A", Type: b.core(r, 0)}, {Name: "Ab", Type: b.core(r, 0), Tag: `json:"a"`}, {Name: "AB", Type: tInt, Tag: `json:"A"`},
 				{Name: "X", Type: tStr, Tag: `json:"ab"`}, {Name: "Y", Type: tInt, Tag: `json:"Ab,omitempty"`}, {Name: "Abc", Type: tInt}}
